@@ -338,6 +338,8 @@ func checkC18(c *Check) {
 	c.Okf("CHROOT-TYPE", "pkg/syslutil."+ci.T.Obj().Name(), p.pos(ci.T.Obj().Pos()),
 		"confining type %s (wrapped fs field %q, root field %q), join=%s allow=%s", ci.T.Obj().Name(), ci.fsField, ci.rootFld, fnName(ci.join), fnName(ci.allow))
 
+	c18LocalImportMark(c)
+
 	// --- rule 1: funnel
 	var scope []*ssa.Function
 	for _, m := range ci.methods {
@@ -939,4 +941,51 @@ func paramAlwaysFalse(f *ssa.Function, prm *ssa.Parameter, r map[*ssa.Function]r
 		}
 	}
 	return true
+}
+
+// c18LocalImportMark: a local import whose path looks like a remote resource
+// ("a.b/c/d/e") is marked with a leading "./" so that the reader opens the file
+// under the root and does not fetch https://a.b/c/d into a cache directory
+// outside it. The test "will the reader take this for remote?" has to be made
+// on the string the reader will get — the joined, cleaned path — not on the
+// text as written: "./a.b/c/d/e" or "a.b//c/d/e" only look remote after cleaning.
+func c18LocalImportMark(c *Check) {
+	p := c.P
+	n := 0
+	for _, f := range p.RepoFuncs() {
+		if fnPkgPath(f) != repoMod+"/"+parsePkg || strings.HasSuffix(p.fnFile(f), "_test.go") {
+			continue
+		}
+		eachCall(f, func(cl ssa.CallInstruction) {
+			o := calleeObj(cl)
+			if o == nil || o.Name() != "IsRemote" || o.Pkg() == nil || !strings.Contains(o.Pkg().Path(), "remotefs") {
+				return
+			}
+			args := cl.Common().Args
+			if len(args) == 0 {
+				return
+			}
+			arg := args[len(args)-1]
+			n++
+			key := fnName(f) + "|remote test on the path the reader gets"
+			joined := derives(arg, func(v ssa.Value) bool {
+				call, ok := v.(*ssa.Call)
+				if !ok {
+					return false
+				}
+				co := calleeObj(call)
+				return co != nil && co.Pkg() != nil && (co.Pkg().Path() == "path/filepath" || co.Pkg().Path() == "path") && (co.Name() == "Join" || co.Name() == "Clean")
+			}, &deriveOpts{throughCalls: func(x *ssa.Call) bool {
+				co := calleeObj(x)
+				return co != nil && co.Pkg() != nil && co.Pkg().Path() == "strings" // ReplaceAll of separators
+			}})
+			c.Cond(joined, "LOCAL-IMPORT-MARK", key, p.pos(cl.Pos()),
+				"the remote-looking test is applied to the joined, cleaned import path",
+				"the remote-looking test is applied to the import path as written, before it is joined and cleaned: spellings that only look remote after cleaning (./a.b/c/d/e, a.b//c/d/e) lose the ./ mark, are fetched as a git resource and written to a cache directory outside the root")
+		})
+	}
+	c.Counts["remote_tests_on_import_paths"] = n
+	if n == 0 {
+		c.Undecidedf("LOCAL-IMPORT-MARK", "pkg/parse", "-", "no remote-looking test on import paths found in pkg/parse: unresolved anchor")
+	}
 }
